@@ -1,18 +1,21 @@
 (* C09 - Index checkout converges to the target from any workspace state.
    Only statements here; the model is Model/IdxCheckout.v (one key is classified by the GENERATED
-   IDiff.diff_entry), proofs in Proofs/IdxCheckoutProofs.v and Proofs/IdxCheckoutConverge.v.
+   IDiff.diff_entry), proofs in Proofs/IdxCheckoutProofs.v (maps, classification, no_delete,
+   errors_reported), IdxCheckoutConverge.v (deletion phases, induction along the depth-sorted list),
+   IdxCheckoutPhases.v (pointwise specifications of makedirs folds, create_files for the three link
+   types, chmod), IdxCheckoutFinal.v (assembly: converges, fixpoint).
 
-   Deviations from DESIGN.md section 6 (all forced by the behaviour of the code as it is, each
-   reproduced on the implementation by harness/props/c09.py):
+   Deviations from DESIGN.md section 6 (forced by the behaviour of the code as it is, reproduced on
+   the implementation by harness/props/c09.py):
    * exec bits are stated in the property's direction only (an executable entry is executable):
      _chmod_files only ever ORs S_IEXEC, and under hardlink/symlink the bit is the cache object's.
-   * C09_converges is proved for the two deletion phases only (C09_converges_partial: after
-     _delete_files and _delete_dirs exactly the paths the target keeps are left - the induction on
-     key depth that /repo d2d7c8a repaired); the creation phases and C09_fixpoint are NOT proved
-     (statements kept below in a comment; they are exercised by the correspondence + oracle on every
-     run and hold by computation on the examples of Proofs/IdxCheckoutConverge.v). *)
+   * the root key () is not a path of the workspace: build() never lists it, so a target with a root
+     entry (a lazily loaded directory object at ()) always yields dirs_create = [()] - a no-op
+     makedirs of the workspace root; C09_fixpoint says "dirs_create holds at most the root key".
+   * the proof does not go "through C08_refines": the model uses the flat union of keys directly
+     (C08's statement, exercised by the correspondence on every run). *)
 From Coq Require Import NArith List Bool.
-From DvcData Require Import Base.Val Base.PyBase Gen.PyTypes Gen.IDiff Model.IdxCheckout Proofs.IdxCheckoutProofs Proofs.IdxCheckoutConverge.
+From DvcData Require Import Base.Val Base.PyBase Gen.PyTypes Gen.IDiff Model.IdxCheckout Proofs.IdxCheckoutProofs Proofs.IdxCheckoutConverge Proofs.IdxCheckoutPhases Proofs.IdxCheckoutFinal.
 Import ListNotations.
 Open Scope N_scope.
 
@@ -42,34 +45,53 @@ Proof. exact failed_reported. Qed.
 Print Assumptions C09_failed_dirs_reported.
 
 
-(* Deletion phases of apply with delete=True, from ANY prefix-closed workspace, for a target whose
-   directories all have entries: after _delete_files and _delete_dirs (deepest first) a path is gone
-   iff compare scheduled it - a file whose content the target does not keep at that path, or a
-   directory that is neither a directory entry nor an implicit node of the target - however deeply
-   the directories to remove are nested and whatever the order of the plan's lists; every other
-   path is untouched.  ([ws2] = the workspace after the two phases, Proofs/IdxCheckoutProofs.v.) *)
-Theorem C09_converges_partial : forall w tr t,
-  ws_ok w -> dirs_explicit (fst (expand tr t)) ->
+(* Hypotheses of the convergence theorems:
+   ws_ok w      the prior workspace is prefix closed (every non-empty strict prefix of a path is a
+                directory), holds no broken link, and the root is no entry;  ANY such workspace.
+   tgt_ok t'    nothing of the (loaded) target lies below a file entry; its directories may have entries
+                (build(), lazy loading) or be implicit trie nodes (an index of file entries only);
+   the root key carries no file entry; every directory object loads (snd (expand ..) = []); every file
+   entry has a hash whose object is in the cache.
+   [conv_at o te hn]: te = file entry x c  ->  o is a file with exactly the bytes c (and is executable if x);
+                      te = directory entry ->  o is a directory;
+                      no entry             ->  o is a directory if the key is an implicit node (hn), else absent. *)
+
+(* With delete=True, from any workspace state, for every link type and every order of the plan: no
+   onerror call, apply does not raise, and EVERY path of the workspace is what the target says - files
+   with the target's bytes, the target's directories (explicit and implicit), nothing else, executable
+   entries executable - including file<->directory kind changes at any depth. *)
+Theorem C09_converges : forall lt avail tr order w t,
+  ws_ok w -> tgt_ok (fst (expand tr t)) -> t_file (lookup (fst (expand tr t)) []) = false ->
+  snd (expand tr t) = [] ->
+  (forall k x c, lookup (fst (expand tr t)) k = Some (TFile x c) -> exists c0, c = Some c0 /\ mem_bytes c0 avail = true) ->
+  let o := checkout lt true avail tr order w t in
+  o_errs o = [] /\ o_raised o = false /\
+  (forall k, k <> [] -> conv_at (lookup (o_ws o) k) (lookup (fst (expand tr t)) k) (has_node (fst (expand tr t)) k)) /\
+  lookup (o_ws o) [] = None.
+Proof. exact converges. Qed.
+Print Assumptions C09_converges.
+
+(* ... and a second compare of the resulting workspace against the same target has nothing to delete
+   and nothing to create (dirs_create holds at most the root key, see the header). *)
+Theorem C09_fixpoint : forall lt avail tr order w t,
+  ws_ok w -> tgt_ok (fst (expand tr t)) -> t_file (lookup (fst (expand tr t)) []) = false ->
+  snd (expand tr t) = [] ->
+  (forall k x c, lookup (fst (expand tr t)) k = Some (TFile x c) -> exists c0, c = Some c0 /\ mem_bytes c0 avail = true) ->
+  let o := checkout lt true avail tr order w t in
+  let p2 := fst (compare false true (o_ws o) tr t) in
+  files_delete p2 = [] /\ dirs_delete p2 = [] /\ files_create p2 = [] /\ forall k, In k (dirs_create p2) -> k = [].
+Proof. exact fixpoint. Qed.
+Print Assumptions C09_fixpoint.
+
+(* The deletion phases alone (the order repaired by /repo d2d7c8a): after _delete_files and
+   _delete_dirs (deepest first) a path is gone iff compare scheduled it, every other path is untouched;
+   no availability hypothesis. ([ws2] = the workspace after the two phases.) *)
+Theorem C09_delete_phase : forall w tr t,
+  ws_ok w -> tgt_ok (fst (expand tr t)) ->
   forall k, k <> [] ->
     lookup (ws2 (compare false true w tr t) w) k =
     if fd true (lookup w k) (lookup (fst (expand tr t)) k)
        || dd true (lookup w k) (lookup (fst (expand tr t)) k) (has_node (fst (expand tr t)) k)
     then None else lookup w k.
 Proof. exact delete_phase. Qed.
-Print Assumptions C09_converges_partial.
-
-(* NOT PROVED (full statements of DESIGN.md, in the property's exec direction):
-   C09_converges : ws_ok w -> dirs_explicit t' -> snd (expand tr t) = [] ->
-     (forall k x c, lookup t' k = Some (TFile x c) -> unavailable avail c = false) ->
-     let o := checkout lt true avail tr order w t in
-     o_errs o = [] /\ o_raised o = false /\
-     forall k, k <> [] ->
-       match lookup (o_ws o) k, option_map fs_node' (lookup t' k) with
-       | Some (File b x _), Some (File c x' _) => b = c /\ (x' = true -> x = true)
-       | Some Dir, Some Dir | None, None => True
-       | _, _ => False
-       end
-   C09_fixpoint : under the same hypotheses, for p2 := fst (compare false true (o_ws o) tr t):
-     files_delete p2 = [] /\ dirs_delete p2 = [] /\ files_create p2 = [] /\ forall k, In k (dirs_create p2) -> k = []
-   Missing: the pointwise specifications of the fold over dirs_create (mkdirs_spec is proved per
-   call), of create_files at the created key for the three link types, and of chmod_files. *)
+Print Assumptions C09_delete_phase.
